@@ -49,11 +49,26 @@ func (g *gen) namedOver(t *TypeX) *TypeX {
 	return &TypeX{Kind: "named", Src: name, Under: t}
 }
 
+// aliasOver declares `type A<n> = <t>` and returns t as declared through that alias: the very same type
+// (same documented behaviour, same values), only the spelling of the field declaration differs.
+func (g *gen) aliasOver(t *TypeX) *TypeX {
+	g.named++
+	name := fmt.Sprintf("A%d", g.named)
+	g.sc.Named = append(g.sc.Named, NamedDecl{Name: name, Src: "= " + t.DeclSrc()})
+	c := *t
+	c.Alias = name
+	return &c
+}
+
 func (g *gen) pick(ts []*TypeX) *TypeX { return ts[g.rng.Intn(len(ts))] }
 
 func (g *gen) maybeNamed(t *TypeX, p int) *TypeX {
-	if g.rng.Intn(100) < p {
+	k := g.rng.Intn(100)
+	if k < p {
 		return g.namedOver(t)
+	}
+	if k < p+p/2 {
+		return g.aliasOver(t)
 	}
 	return t
 }
@@ -551,15 +566,20 @@ type leafRef struct {
 }
 
 func collectLeaves(fs []*Field, prefix []string, inherited []Marker, out *[]leafRef) {
+	collectLeavesDirect(fs, prefix, inherited, nil, out)
+}
+
+// direct: the markers written on the enclosing nested-struct field (they reach the leaves of this level only)
+func collectLeavesDirect(fs []*Field, prefix []string, inherited, direct []Marker, out *[]leafRef) {
 	for _, f := range fs {
 		if f.Nested != nil {
 			for _, n := range f.Names {
-				collectLeaves(f.Nested, append(append([]string{}, prefix...), n), inherited, out)
+				collectLeavesDirect(f.Nested, append(append([]string{}, prefix...), n), inherited, f.Markers, out)
 			}
 			continue
 		}
 		for _, n := range f.Names {
-			ms := append(append([]Marker{}, inherited...), f.Markers...)
+			ms := append(append(append([]Marker{}, inherited...), direct...), f.Markers...)
 			*out = append(*out, leafRef{path: append(append([]string{}, prefix...), n), t: f.Type, ms: ms})
 		}
 	}
@@ -842,11 +862,12 @@ func (g *gen) famMatrix(id string, rules []string, types []*TypeX, perPkg int, w
 			if !ok {
 				continue
 			}
-			variants := []bool{false}
+			variants := []int{0}
 			if withNamed {
-				variants = []bool{false, true}
+				variants = []int{0, 1, 2} // plain, named type over it, alias of it
 			}
-			for _, nm := range variants {
+			for _, variant := range variants {
+				nm := variant == 1
 				if cur == nil || len(cur.Decls) >= perPkg {
 					flush()
 					cur = newScenario(fmt.Sprintf("%s%03d", id, len(out)))
@@ -865,6 +886,9 @@ func (g *gen) famMatrix(id string, rules []string, types []*TypeX, perPkg int, w
 						continue
 					}
 					t = g.namedOver(t0)
+				}
+				if variant == 2 {
+					t = g.aliasOver(t0)
 				}
 				n++
 				d := &Decl{Name: fmt.Sprintf("S%d", n)}
@@ -915,6 +939,9 @@ func (g *gen) famCombo(id string, count int, primary []string) []*Scenario {
 			}
 		}
 		f := &Field{Names: []string{"F"}, Type: stringT}
+		if g.rng.Intn(4) == 0 {
+			f.Type = g.aliasOver(stringT)
+		}
 		switch g.rng.Intn(3) {
 		case 0: // all on the field
 			f.Markers = ms
@@ -955,6 +982,9 @@ func (g *gen) famRandom(id string, count, maxFields int) []*Scenario {
 				f := &Field{Names: []string{fmt.Sprintf("F%d", fi)}, Type: t, Markers: g.fieldMarkers(t, k)}
 				if g.rng.Intn(10) == 0 {
 					f.Extra = []string{"// F is a field; govalid:required mentioned in prose"}
+				}
+				if g.rng.Intn(8) == 0 {
+					f.After = []string{"// the rules above are enforced by the generated validator."}
 				}
 				return f
 			}
@@ -1154,8 +1184,42 @@ func (g *gen) famC08(id string, count int) []*Scenario {
 					f.Markers = keep
 				}
 			}
+			if s%3 == 0 {
+				// (fields of the history below: they stay, without markers, because the generator refuses a package whose
+				// stale validator files no longer type-check)
+				for k := 0; k < 8; k++ {
+					d.Fields = append(d.Fields, &Field{Names: []string{fmt.Sprintf("Zpre%d", k)}, Type: stringT})
+				}
+			}
 			sc.Decls = append(sc.Decls, d)
 			sc.Values[d.Name] = g.structValues(d, 3)
+		}
+		if s%3 == 0 {
+			// history: the package used to carry rules on eight more fields per struct and was generated then;
+			// the run under test regenerates into the same directory and must leave complete, compiling files
+			pre := *sc
+			pre.Decls = nil
+			for _, d := range sc.Decls {
+				pd := *d
+				pd.Fields = append([]*Field{}, d.Fields[:len(d.Fields)-8]...)
+				for k := 0; k < 8; k++ {
+					var ms []Marker
+					for _, m := range []Marker{{ID: "required"}, {ID: "minlength", Expr: "3", HasExpr: true}, {ID: "maxlength", Expr: "40", HasExpr: true}} {
+						dup := false
+						for _, tm := range d.Markers {
+							if tm.ID == m.ID {
+								dup = true
+							}
+						}
+						if !dup {
+							ms = append(ms, m)
+						}
+					}
+					pd.Fields = append(pd.Fields, &Field{Names: []string{fmt.Sprintf("Zpre%d", k)}, Type: stringT, Markers: ms})
+				}
+				pre.Decls = append(pre.Decls, &pd)
+			}
+			sc.Pre = &pre
 		}
 		out = append(out, sc)
 	}
@@ -1238,7 +1302,18 @@ func (g *gen) corpusC07(id string) []*Scenario {
 	sc6.Decls = []*Decl{d6, d7}
 	sc6.Values["Long"] = g.structValues(d6, 2)
 	sc6.Values["LongIn"] = g.structValues(d7, 2)
-	return []*Scenario{sc, sc2, sc3, sc4, sc5, sc6}
+	// a marker written on a nested struct: it is handed down to the direct fields of that struct — and reported with a Path
+	// that lacks the struct's name (known finding, C07)
+	d8 := &Decl{Name: "K8", Fields: []*Field{
+		{Names: []string{"ID"}, Type: stringT, Markers: []Marker{req}},
+		{Names: []string{"Ship"}, Markers: []Marker{req}, Nested: []*Field{
+			{Names: []string{"Carrier"}, Type: stringT}}},
+	}}
+	sc7 := newScenario(id + "k8")
+	g.sc = sc7
+	sc7.Decls = []*Decl{d8}
+	sc7.Values["K8"] = g.structValues(d8, 4)
+	return []*Scenario{sc, sc2, sc3, sc4, sc5, sc6, sc7}
 }
 
 // famBounds: one numeric field carrying a lower AND an upper bound marker (both source orders; bounds
@@ -1328,9 +1403,13 @@ func (g *gen) famTwoLevel(id string, rules []string, types []*TypeX) []*Scenario
 			}
 			n++
 			d := &Decl{Name: fmt.Sprintf("L%d", n), Markers: []Marker{a}}
+			own := t
+			if g.rng.Intn(3) == 0 {
+				own = g.aliasOver(t)
+			}
 			d.Fields = []*Field{
 				{Names: []string{"Plain"}, Type: t},
-				{Names: []string{"Own"}, Type: t, Markers: []Marker{b}},
+				{Names: []string{"Own"}, Type: own, Markers: []Marker{b}},
 				{Names: []string{"Tail"}, Type: t},
 			}
 			cur.Decls = append(cur.Decls, d)
@@ -1341,4 +1420,212 @@ func (g *gen) famTwoLevel(id string, rules []string, types []*TypeX) []*Scenario
 		out = append(out, cur)
 	}
 	return out
+}
+
+// hasMarkedNest: some nested anonymous struct field of the declaration carries markers of its own
+func hasMarkedNest(fs []*Field) bool {
+	for _, f := range fs {
+		if f.Nested != nil && (len(f.Markers) > 0 || hasMarkedNest(f.Nested)) {
+			return true
+		}
+	}
+	return false
+}
+
+// pushdown: the declaration with every marker written on a nested-struct field rewritten onto the direct leaf fields of
+// that struct (which is what such a marker governs); the Spec is asked about this form, and only the multiset of
+// (rule, value) entries is compared, because the Path reported for handed-down rules is a known finding.
+func pushdown(fs []*Field, direct []Marker) []*Field {
+	var out []*Field
+	for _, f := range fs {
+		nf := *f
+		if f.Nested != nil {
+			nf.Markers = nil
+			nf.Nested = pushdown(f.Nested, f.Markers)
+		} else {
+			nf.Markers = append(append([]Marker{}, direct...), f.Markers...)
+		}
+		out = append(out, &nf)
+	}
+	return out
+}
+
+// famDeep (C02 / C09): rules below and next to MARKED nested structs.
+//  shape 0: a marker on a nested struct, an unmarked middle level, and leaves two levels down that carry the same marker
+//           themselves (plus other rules) — every written leaf rule must still be checked;
+//  shape 1: `A, B struct{…}` declared with several names INSIDE another nested struct, marker on the declaration —
+//           every name's struct is governed (and read through its own path);
+//  shape 2: the same one level deeper, three names, two markers.
+func (g *gen) famDeep(id string, count int) []*Scenario {
+	var out []*Scenario
+	intT := basicT("int", "Int")
+	for s := 0; s < count; s++ {
+		sc := newScenario(fmt.Sprintf("%s%03d", id, s))
+		g.sc = sc
+		var d *Decl
+		switch s % 3 {
+		case 0:
+			type choice struct {
+				m Marker
+				t *TypeX
+			}
+			cs := []choice{
+				{Marker{ID: "required"}, stringT}, {Marker{ID: "required"}, intT}, {Marker{ID: "required"}, collTypes[0]}, {Marker{ID: "required"}, refTypes[0]},
+				{Marker{ID: "minlength", Expr: "2", HasExpr: true}, stringT}, {Marker{ID: "maxlength", Expr: "5", HasExpr: true}, stringT},
+				{Marker{ID: "gt", Expr: "0", HasExpr: true}, intT}, {Marker{ID: "lte", Expr: "100", HasExpr: true}, basicT("int64", "Int64")},
+				{Marker{ID: "email"}, stringT}, {Marker{ID: "minitems", Expr: "1", HasExpr: true}, collTypes[1]},
+			}
+			c := cs[(s/3)%len(cs)]
+			inner := c.m
+			if inner.HasExpr && g.rng.Intn(2) == 0 {
+				inner = g.marker(c.m.ID, c.t)
+			}
+			addr := &Field{Names: []string{"Addr"}, Nested: []*Field{
+				{Names: []string{"City"}, Type: c.t, Markers: []Marker{inner}},
+				{Names: []string{"Zip"}, Type: stringT, Markers: []Marker{{ID: "numeric"}}},
+				{Names: []string{"Floor"}, Type: intT, Markers: []Marker{{ID: "gte", Expr: "1", HasExpr: true}}},
+				{Names: []string{"Note"}, Type: stringT},
+			}}
+			ship := &Field{Names: []string{"Ship"}, Markers: []Marker{c.m}, Nested: []*Field{
+				{Names: []string{"Carrier"}, Type: c.t},
+				addr,
+				{Names: []string{"Memo"}, Type: c.t},
+			}}
+			d = &Decl{Name: "Order", Fields: []*Field{
+				{Names: []string{"ID"}, Type: stringT, Markers: []Marker{{ID: "required"}}},
+				ship,
+				{Names: []string{"Total"}, Type: intT, Markers: []Marker{{ID: "gte", Expr: "1", HasExpr: true}}},
+			}}
+		case 1:
+			m := []Marker{{ID: "maxlength", Expr: "5", HasExpr: true}, {ID: "minlength", Expr: "3", HasExpr: true}, {ID: "required"}, {ID: "numeric"}}[(s/3)%4]
+			names := []string{"Home", "Work"}
+			if g.rng.Intn(2) == 0 {
+				names = append(names, "Alt")
+			}
+			d = &Decl{Name: "Profile", Fields: []*Field{
+				{Names: []string{"Name"}, Type: stringT},
+				{Names: []string{"Contacts"}, Nested: []*Field{
+					{Names: names, Markers: []Marker{m}, Nested: []*Field{{Names: []string{"Phone"}, Type: stringT}}},
+				}},
+			}}
+		default:
+			ms := [][]Marker{
+				{{ID: "required"}, {ID: "minlength", Expr: "3", HasExpr: true}},
+				{{ID: "maxlength", Expr: "4", HasExpr: true}},
+				{{ID: "alpha"}, {ID: "maxlength", Expr: "6", HasExpr: true}},
+			}[(s/3)%3]
+			d = &Decl{Name: "Shipment", Fields: []*Field{
+				{Names: []string{"Route"}, Nested: []*Field{
+					{Names: []string{"Stops"}, Nested: []*Field{
+						{Names: []string{"From", "Via", "To"}, Markers: ms, Nested: []*Field{{Names: []string{"City"}, Type: stringT}}},
+					}},
+				}},
+			}}
+		}
+		sc.Decls = []*Decl{d}
+		sc.Values[d.Name] = g.structValues(d, 10)
+		out = append(out, sc)
+	}
+	return out
+}
+
+// famWide: structs with more than 64 validated fields / more than 64 rules (widths at which a generator could switch
+// to another code shape). Values are built explicitly: one vector satisfying every rule, then one violation per leaf,
+// then a few vectors with many violations.
+func (g *gen) famWide(id string) []*Scenario {
+	var out []*Scenario
+	intT := basicT("int", "Int")
+	type rule struct {
+		m       Marker
+		t       *TypeX
+		ok, bad *SVal
+	}
+	mk := func(k int) rule {
+		switch k % 6 {
+		case 0:
+			return rule{Marker{ID: "required"}, stringT, strVal(stringT, "abc"), strVal(stringT, "")}
+		case 1:
+			return rule{Marker{ID: "gt", Expr: "0", HasExpr: true}, intT, intVal(intT, "5"), intVal(intT, "0")}
+		case 2:
+			return rule{Marker{ID: "maxlength", Expr: "10", HasExpr: true}, stringT, strVal(stringT, "héllo"), strVal(stringT, "abcdefghijk")}
+		case 3:
+			return rule{Marker{ID: "lte", Expr: "100", HasExpr: true}, intT, intVal(intT, "100"), intVal(intT, "101")}
+		case 4:
+			return rule{Marker{ID: "minlength", Expr: "2", HasExpr: true}, stringT, strVal(stringT, "ab"), strVal(stringT, "a")}
+		default:
+			return rule{Marker{ID: "required"}, intT, intVal(intT, "-1"), intVal(intT, "0")}
+		}
+	}
+	for wi, width := range []int{49, 66, 100} {
+		sc := newScenario(fmt.Sprintf("%s%d", id, wi))
+		g.sc = sc
+		d := &Decl{Name: fmt.Sprintf("Wide%d", width)}
+		var rules []rule
+		for i := 0; i < width; i++ {
+			r := mk(i + wi)
+			rules = append(rules, r)
+			f := &Field{Names: []string{fmt.Sprintf("F%03d", i)}, Type: r.t, Markers: []Marker{r.m}}
+			if wi == 0 && r.t == stringT && r.m.ID != "required" {
+				f.Markers = append(f.Markers, Marker{ID: "required"}) // 49 fields but more than 64 rules
+			}
+			d.Fields = append(d.Fields, f)
+		}
+		vec := func(bad map[int]bool) *SVal {
+			root := &SVal{Kind: "st"}
+			for i, r := range rules {
+				v := r.ok
+				if bad[i] {
+					v = r.bad
+				}
+				root.Fields = append(root.Fields, NamedVal{Name: d.Fields[i].Names[0], V: v})
+			}
+			return root
+		}
+		vals := []*SVal{vec(nil)}
+		for i := range rules {
+			vals = append(vals, vec(map[int]bool{i: true}))
+		}
+		all := map[int]bool{}
+		for i := range rules {
+			all[i] = true
+		}
+		vals = append(vals, vec(all))
+		for k := 0; k < 3; k++ {
+			some := map[int]bool{}
+			for i := range rules {
+				if g.rng.Intn(2) == 0 {
+					some[i] = true
+				}
+			}
+			vals = append(vals, vec(some))
+		}
+		sc.Decls = []*Decl{d}
+		sc.Values[d.Name] = vals
+		out = append(out, sc)
+	}
+	return out
+}
+
+// corpusDoc (C07): doc comments in which prose FOLLOWS the markers (and precedes them), on fields and on the declaration
+func (g *gen) corpusDoc(id string) []*Scenario {
+	sc := newScenario(id + "doc")
+	g.sc = sc
+	intT := basicT("int", "Int")
+	d := &Decl{Name: "Prose", Markers: []Marker{{ID: "required"}}, After: []string{"// Prose is checked by the generated validator.", "//", "// Every field is mandatory."},
+		Fields: []*Field{
+			{Names: []string{"Name"}, Type: stringT, Markers: []Marker{{ID: "minlength", Expr: "2", HasExpr: true}}, After: []string{"// Name is what the user typed."}},
+			{Names: []string{"Age"}, Type: intT, Extra: []string{"// Age in years."}, Markers: []Marker{{ID: "gt", Expr: "0", HasExpr: true}, {ID: "lte", Expr: "150", HasExpr: true}}, After: []string{"//", "// see the handbook, section 4"}},
+			{Names: []string{"Mail"}, Type: stringT, Markers: []Marker{{ID: "email", Legacy: true}}, After: []string{"// (legacy spelling, still accepted)"}},
+		}}
+	d2 := &Decl{Name: "ProseFlat", Fields: []*Field{
+		{Names: []string{"Title"}, Type: stringT, Markers: []Marker{{ID: "required"}, {ID: "maxlength", Expr: "8", HasExpr: true}}, After: []string{"// Title of the page."}},
+		{Names: []string{"Count"}, Type: intT, Markers: []Marker{{ID: "gte", Expr: "1", HasExpr: true}}, After: []string{"// nolint is not a marker", "//nolint:lll"}},
+		{Names: []string{"In"}, Nested: []*Field{
+			{Names: []string{"Code"}, Type: stringT, Markers: []Marker{{ID: "numeric"}, {ID: "length", Expr: "4", HasExpr: true}}, After: []string{"// four digits"}},
+		}},
+	}}
+	sc.Decls = []*Decl{d, d2}
+	sc.Values["Prose"] = g.structValues(d, 8)
+	sc.Values["ProseFlat"] = g.structValues(d2, 6)
+	return []*Scenario{sc}
 }
